@@ -117,4 +117,40 @@ pub fn emit(dir: &Path) {
       );
       write(dir, "KF-5.json", "C02", "KF-5", Program { rels, rules, macros: vec![] }, Kind::AscentPar, vec![], db);
    }
+   // KF-6: second run() of a serial program with an aggregate over a Vec-backed index
+   {
+      let rels = vec![rel("edge", vec![Ty::I32, Ty::I32], true), rel("total", vec![Ty::I32, Ty::I32], false)];
+      let rules = vec![Rule {
+         heads: vec![hd("total", vec![v("x"), v("s")])],
+         body: vec![
+            cl("edge", vec![av("x"), Arg::Wild]),
+            BodyItem::Agg { pat: Pat::Var("s".into()), agg: Aggregator::Sum, bound: vec!["y".into()], rel: "edge".into(), args: vec![av("x"), av("y")] },
+         ],
+      }];
+      let mut db = Db::default();
+      db.rels.insert("edge".into(), vec![vec![i(1), i(2)], vec![i(1), i(3)], vec![i(2), i(5)]]);
+      write_hist(dir, "KF-6.json", "C13", "KF-6", Program { rels, rules, macros: vec![] }, Kind::Ascent, db, "[\"Run\",\"Run\"]");
+   }
+   // KF-7: second run() of a parallel transitive closure
+   {
+      let rels = vec![rel("edge", vec![Ty::I32, Ty::I32], true), rel("path", vec![Ty::I32, Ty::I32], false)];
+      let rules = vec![
+         Rule { heads: vec![hd("path", vec![v("x"), v("y")])], body: vec![cl("edge", vec![av("x"), av("y")])] },
+         Rule {
+            heads: vec![hd("path", vec![v("x"), v("z")])],
+            body: vec![cl("edge", vec![av("x"), av("y")]), cl("path", vec![av("y"), av("z")])],
+         },
+      ];
+      let mut db = Db::default();
+      db.rels.insert("edge".into(), vec![vec![i(1), i(2)], vec![i(2), i(3)]]);
+      write_hist(dir, "KF-7.json", "C13", "KF-7", Program { rels, rules, macros: vec![] }, Kind::AscentPar, db, "[\"Run\",\"Run\"]");
+   }
+}
+
+fn write_hist(dir: &Path, file: &str, prop: &str, base: &str, prog: Program, kind: Kind, input: Db, ops: &str) {
+   write(dir, file, prop, base, prog, kind, vec![], input);
+   let p = dir.join(file);
+   let mut j: serde_json::Value = serde_json::from_str(&std::fs::read_to_string(&p).unwrap()).unwrap();
+   j["ops"] = serde_json::Value::String(ops.to_string());
+   std::fs::write(&p, serde_json::to_string_pretty(&j).unwrap()).unwrap();
 }
